@@ -11,7 +11,8 @@ package main
 //	removed-locked           directory removed, registration protected by `git worktree lock` (not `prunable`)
 //	removed+worktree-prune   directory removed, then `git worktree prune`: the registration is gone
 //
-// "sole": the worktree's HEAD is a dedicated commit dated 30 days back (outside every retention window) that adds
+// "sole": the worktree's HEAD is a dedicated commit dated 30 days back (outside every retention window; in 3/4 a root
+// commit on an orphan branch with nothing else in its tree, else on top of a commit the prune remote has) that adds
 // two fresh LFS files under paths no lfs.fetchexclude pattern of the generator matches, and the commit is pushed to
 // the prune remote through the pre-push hook. Nothing but the checkout of that registered worktree needs the two
 // objects then.
@@ -95,8 +96,14 @@ func (c *cs) addStateWorktree(name, kind string, sole bool) {
 		}
 		base = all[c.r.Intn(len(all))]
 	}
+	// Mostly the dedicated commit is a ROOT commit (orphan branch) holding nothing but its two files: a worktree
+	// retains every object of its checkout, so a commit on top of a random base would keep that whole tree alive
+	// and hide what the other clauses (recent previous versions, remote refs, ...) have to say about those objects.
+	orphan := sole && c.r.Intn(4) != 0
 	var ok bool
-	if detached && !sole {
+	if orphan {
+		ok = c.orphanWorktree(path, br)
+	} else if detached && !sole {
 		ok = c.git(c.main, "worktree-add", "worktree", "add", "-q", "--detach", path, base).OK()
 	} else {
 		ok = c.git(c.main, "worktree-add", "worktree", "add", "-q", "-b", br, path, base).OK()
@@ -163,5 +170,78 @@ func (c *cs) stepWorktreeStates() {
 			c.run.Count("git_worktree_prune_steps", 1)
 			c.run.Count("worktrees_unregistered_by_git_worktree_prune", int64(before-len(c.listWorktrees())))
 		}
+	}
+}
+
+// orphanWorktree adds a linked worktree at path that sits on the unborn branch br with an empty index and nothing
+// but a .gitattributes file (staged): the first commit made there is a root commit.
+func (c *cs) orphanWorktree(path, br string) bool {
+	ok := c.git(c.main, "worktree-add", "worktree", "add", "-q", "--no-checkout", "--detach", path, "HEAD").OK() &&
+		c.git(path, "worktree-orphan", "checkout", "-q", "--orphan", br).OK() &&
+		c.git(path, "worktree-orphan", "read-tree", "--empty").OK()
+	if ok {
+		c.write(path, ".gitattributes", []byte("*.bin "+c.cfg.AttrLine+"\n"))
+		ok = c.git(path, "add", "add", "--", ".gitattributes").OK()
+	}
+	return ok
+}
+
+// stepVersionBranch: a pushed, recent, non-HEAD branch `vb` (root commit of its own, built in a temporary worktree)
+// on which a commit inside the recent-commits window MEASURED FROM THE BRANCH TIP replaces an LFS file:
+//
+//	vb~2 (30 d)  adds vbN.bin
+//	vb~1 (cAge)  replaces it          cAge = an age with tipAge <= cAge <= tipAge + commitsdays + offset - 0.5
+//	vb   (tipAge) adds another file   tipAge = an age inside the recent-refs window (mostly the oldest such)
+//
+// Only the recent-commits clause keeps the first version, and only if the window is taken from the tip of vb and
+// not from HEAD or from now.
+func (c *cs) stepVersionBranch() {
+	cfg := c.cfg
+	if cfg.RefsDays == 0 || cfg.CommitsDays == 0 || c.feat["nothing-pushed"] {
+		return
+	}
+	old := c.r
+	c.r = rand.New(rand.NewSource(mix(c.run.Seed, cfg.Idx, 9)))
+	defer func() { c.r = old }()
+	w, n := float64(cfg.RefsDays+cfg.OffsetDays), float64(cfg.CommitsDays+cfg.OffsetDays)
+	var tips []float64
+	for _, a := range ageDays {
+		if a <= w-0.5 {
+			tips = append(tips, a)
+		}
+	}
+	if len(tips) == 0 {
+		return
+	}
+	tipAge := tips[len(tips)-1]
+	if c.r.Intn(4) == 0 {
+		tipAge = tips[c.r.Intn(len(tips))]
+	}
+	var cs []float64
+	for _, a := range ageDays {
+		if a >= tipAge && a <= tipAge+n-0.5 {
+			cs = append(cs, a)
+		}
+	}
+	cAge := cs[len(cs)-1]
+	if c.r.Intn(4) == 0 {
+		cAge = cs[c.r.Intn(len(cs))]
+	}
+	tmp := filepath.Join(c.env.Root, "vbwt")
+	if !c.orphanWorktree(tmp, "vb") {
+		return
+	}
+	p := c.name("vb")
+	c.writeLFS(tmp, p)
+	ok := c.commit(tmp, "first version of "+p, 30)
+	c.writeLFS(tmp, p)
+	ok = ok && c.commit(tmp, "second version of "+p, cAge)
+	c.writeLFS(tmp, "n/"+c.name("vb"))
+	ok = ok && c.commit(tmp, "tip of the version branch", tipAge)
+	pushed := ok && c.pushTo(cfg.PruneRemote(), "push-version-branch", "vb")
+	c.git(c.main, "worktree-remove", "worktree", "remove", "--force", tmp)
+	if pushed {
+		c.feat["version-branch"] = true
+		c.run.Count("version_branches_pushed", 1)
 	}
 }
